@@ -530,7 +530,18 @@ func (fl *frameLab) runFrame(s *scen, sc frameScenario, idx int) {
 		}
 		stream = append(stream, junk...)
 	}
+	// the session counts a package when its dispatch has returned, which can be a moment after the caller of the
+	// previous scenario's last request got its answer (the task-pool goroutine is still on its way to the counter):
+	// take the base only once the counter has stood still for a while, or a straggler is counted as ours
 	before := readPkgs(sess)
+	for still := 0; still < 5 && before >= 0; {
+		time.Sleep(8 * time.Millisecond)
+		if n := readPkgs(sess); n == before {
+			still++
+		} else {
+			before, still = n, 0
+		}
+	}
 
 	// 3. write it, chunk by chunk
 	written, werr := conn.WriteChunks(stream, sc.Cuts, func(int) time.Duration { return time.Duration(1000+r.Intn(2000)) * time.Microsecond })
